@@ -7,6 +7,7 @@ import (
 	"strings"
 
 	"verif/internal/core"
+	"verif/internal/sched"
 )
 
 // C10 — session windows split a key's events at gaps above the timeout, each event once.
@@ -130,6 +131,10 @@ func runC10(ctx *core.Ctx) {
 	ctx.Cases("c10", n, 4*workers(), func(i int, r *rand.Rand) {
 		execC10(ctx, genEvSession(core.CaseRef{Stream: "c10", Index: i}, r))
 	})
+	for k, v := range sched.Hits() {
+		ctx.Count("hook_hits."+k, v)
+	}
+	ctx.Count("perturbation_actions", sched.Acted())
 }
 
 // c10Sessions canonicalises the outcome of a run: per key, the sorted list of sorted witness lists.
